@@ -3,6 +3,7 @@ import Driver.Rd
 import Driver.Wr
 import Driver.Pl
 import Driver.Cl
+import Driver.Cd
 /-! `driver <suite>`: reads a transcript on stdin, prints the model's `obs` line for every `op` line. -/
 
 partial def loopSrv (h : IO.FS.Stream) (out : IO.FS.Stream) (st : Driver.Srv.St) : IO Unit := do
@@ -57,5 +58,6 @@ def main (args : List String) : IO UInt32 := do
   | ["reader"] => loopRd stdin stdout {}; return 0
   | ["client"] => loopCl stdin stdout ({}, []); return 0
   | ["pool"] => loopPl stdin stdout {}; return 0
+  | ["codec"] => loopStateless stdin stdout Driver.Cd.handle; return 0
   | ["writer"] => loopStateless stdin stdout Driver.Wr.handle; return 0
   | _ => IO.eprintln "usage: driver <suite>"; return 2
